@@ -304,6 +304,11 @@ def build_cases(tier, seed, rnd):
                 cases.append(scn("ctx", r, kp, with_ids(t, "same")))
             if thorough:
                 cases.append(scn("ctx", r, 3, with_ids(t, "alt"), backoff=0, mx=0))
+    # KeepErrs far below zero is documented as legal ("if KeepErrs is <= 0 ..."): one error kept, whatever the history
+    for t in sequences(5):
+        for kp in (-2, -5, -1000, -2 ** 31, -2 ** 62):
+            cases.append(scn("ctx", 7, kp, with_ids(t, "distinct")))
+        cases.append(scn("ctx", -1, -3, with_ids(t, "alt")))
     for t in sequences(4):
         for r in RETRIES:
             cases.append(scn("some", r, 2, with_ids(t, "distinct")))
